@@ -62,11 +62,11 @@ func main() {
 		samples.Add(fmt.Sprintf("map keys=%d iterators<=%d: states=%d depth=%d fixpoint=%v", c[0], c[2], st.States, st.Depth, st.Fixpoint))
 	}
 	// part 2: the LRU front-ends - after every operation of every history
-	for _, kind := range []string{"cache", "ecache", "expirable"} {
+	for _, kind := range []string{"cache", "ecache", "ecacheptr", "expirable"} {
 		for capa := 1; capa <= maxCap; capa++ {
 			kind, capa := kind, capa
 			keys := capa + 1
-			if kind == "ecache" && capa >= 3 && !run.Thorough() {
+			if (kind == "ecache" || kind == "ecacheptr") && capa >= 3 && !run.Thorough() {
 				keys = capa
 			}
 			al := lruh.New(kind, capa, keys).Alphabet()
@@ -78,7 +78,10 @@ func main() {
 					for i, o := range path {
 						sig, det := s.Apply(o)
 						if sig != "" {
-							// functional mismatches belong to C08; here only retention is judged
+							// functional mismatches belong to C08; here only retention and the capacity bound are judged
+							if csig, cdet := s.OverCapacity(o); csig != "" && i == len(path)-1 {
+								return "", nil, &bfs.Violation{Sig: csig, Detail: cdet}
+							}
 							return "", nil, nil
 						}
 						sig, det = s.Retention(o)
